@@ -75,7 +75,7 @@ NO_PANIC_EXACT = {
     "std::fmt::Formatter::<'a>::debug_struct", "std::fmt::DebugStruct::<'a, 'b>::field", "std::fmt::DebugStruct::<'a, 'b>::finish", "std::fmt::DebugStruct::<'a, 'b>::finish_non_exhaustive",
     "std::fmt::Formatter::<'a>::debug_tuple", "std::fmt::DebugTuple::<'a, 'b>::field", "std::fmt::DebugTuple::<'a, 'b>::finish", "std::fmt::Formatter::<'a>::debug_list", "std::fmt::DebugList::<'a, 'b>::entries", "std::fmt::DebugList::<'a, 'b>::entry", "std::fmt::DebugList::<'a, 'b>::finish",
     "std::fmt::Formatter::<'a>::write_fmt", "std::fmt::Formatter::<'a>::alternate", "std::fmt::Debug::fmt", "std::fmt::Display::fmt",
-    "<D as digest::Digest>::new_with_prefix", "<T as digest::Mac>::new",
+    "<D as digest::Digest>::new_with_prefix", "<T as digest::Mac>::new", "<D as digest::Digest>::finalize_reset", "digest::FixedOutputReset::finalize_fixed_reset", "<D as digest::Digest>::reset",
     "core::slice::<impl [[T; N]]>::as_flattened", "core::slice::<impl [[T; N]]>::as_flattened_mut", "std::array::<impl [T; N]>::map", "std::array::<impl [T; N]>::each_ref", "std::array::<impl [T; N]>::each_mut",
     "std::iter::Iterator::try_for_each", "std::iter::Iterator::try_fold", "std::iter::Iterator::scan", "std::iter::Iterator::inspect", "std::iter::Iterator::peekable", "std::iter::Iterator::min", "std::iter::Iterator::max", "std::iter::Iterator::eq", "std::iter::Iterator::ne", "std::iter::Iterator::rposition", "std::iter::Iterator::flatten", "std::iter::Iterator::flat_map", "std::iter::Iterator::filter_map", "std::iter::Iterator::find_map", "std::iter::Iterator::skip_while", "std::iter::Iterator::map_while", "std::iter::Iterator::fuse",
     "std::char::convert::<impl std::convert::TryFrom<char> for u8>::try_from", "std::char::convert::<impl std::convert::From<u8> for char>::from", "std::char::convert::<impl std::convert::From<char> for u32>::from",
